@@ -12,16 +12,20 @@ unsafe impl std::alloc::GlobalAlloc for Counting {
         let p = std::alloc::System.alloc(l);
         if !p.is_null() {
             let _ = props::c27::LIVE_BYTES.try_with(|c| c.set(c.get() + l.size() as isize));
+            props::c27::track_alloc(p as usize, l.size(), l.align());
         }
         p
     }
     unsafe fn dealloc(&self, p: *mut u8, l: std::alloc::Layout) {
         let _ = props::c27::LIVE_BYTES.try_with(|c| c.set(c.get() - l.size() as isize));
+        props::c27::track_dealloc(p as usize, l.size(), l.align());
         std::alloc::System.dealloc(p, l)
     }
     unsafe fn realloc(&self, p: *mut u8, l: std::alloc::Layout, new: usize) -> *mut u8 {
         let q = std::alloc::System.realloc(p, l, new);
         if !q.is_null() {
+            props::c27::track_dealloc(p as usize, l.size(), l.align());
+            props::c27::track_alloc(q as usize, new, l.align());
             let _ = props::c27::LIVE_BYTES.try_with(|c| c.set(c.get() + new as isize - l.size() as isize));
         }
         q
